@@ -6,6 +6,7 @@ package main
 
 import (
 	"fmt"
+	"regexp"
 	"sort"
 	"strings"
 )
@@ -143,7 +144,19 @@ func runC05(c *Ctx) {
 				Input: input})
 			continue
 		}
-		if !jsonEqual(res.TopOuts, cs.ref.TopOuts) {
+		got, want := res.TopOuts, cs.ref.TopOuts
+		if cs.spec.PostProcessCrash != 0 {
+			// one file bound to several outputs is materialised once; which output's name the
+			// copies point at depends on what the interrupted run had already moved: compare the
+			// records modulo the location under outs/
+			got, want = reOutsPath.ReplaceAll(got, []byte(`"$$OUTS"`)), reOutsPath.ReplaceAll(want, []byte(`"$$OUTS"`))
+			if !jsonEqual(got, want) {
+				r.hist("postprocess_crash_differs")
+			} else if !jsonEqual(res.TopOuts, cs.ref.TopOuts) {
+				r.hist("postprocess_crash_outs_location_differs_only")
+			}
+		}
+		if !jsonEqual(got, want) {
 			r.violate(Violation{Kind: "property", Key: "C05:outputs-differ",
 				What:  "final outputs after kill+restart differ from the uninterrupted run",
 				Input: input, Impl: string(res.TopOuts), Expect: string(cs.ref.TopOuts)})
@@ -168,6 +181,8 @@ func runC05(c *Ctx) {
 		}
 	}
 }
+
+var reOutsPath = regexp.MustCompile(`"\$PS/outs/[^"]*"`)
 
 func firstLine(s string) string {
 	if i := strings.IndexByte(s, '\n'); i >= 0 {
